@@ -24,10 +24,11 @@
                 code on both paths)                                          [oracle]
      d_blk      the samples visible in the persistent blocks                 [oracle]
 
-   Quirk kept on purpose (the model follows the code as it is): a memSeries restored from the
-   snapshot keeps mmMaxTime = 0 (Go zero value; only resetSeriesWithMMappedChunks sets it), and
-   processWALSamples skips every sample with T <= mmMaxTime: WAL records replayed AFTER an
-   outdated snapshot lose their samples with T <= 0  (see C23_outdated_snapshot_refuted). *)
+   mmMaxTime of a memSeries restored from the snapshot: since the fix (/repo 5693077124)
+   loadChunkSnapshot sets it to MinInt64 ([snap_series], [open]).  Before the fix it kept the Go
+   zero value 0 (only resetSeriesWithMMappedChunks set it) and processWALSamples, which skips
+   every sample with T <= mmMaxTime, lost the samples with T <= 0 of WAL records replayed AFTER
+   an outdated snapshot: [snap_series_old], [open_old], C23_outdated_snapshot_old_refuted. *)
 From Coq Require Import List ZArith Bool.
 Import ListNotations.
 Open Scope Z_scope.
@@ -89,12 +90,15 @@ Definition wal_series (mv : Z) (cs : list (list sample)) : mser :=
 (* a series restored by loadChunkSnapshot, then given its chunk files by loadMmappedChunks
    (branch "ms, ok := refSeries[seriesRef]"): a chunk file whose maxTime reaches the snapshotted
    head chunk's minTime means the head chunk was completed and m-mapped after the snapshot was
-   taken: the in-memory head chunk is dropped.  mmMaxTime stays 0. *)
+   taken: the in-memory head chunk is dropped.  mmMaxTime stays what loadChunkSnapshot left
+   ([mm0]: MinInt64 now, 0 before the fix). *)
 Definition attach (m : mser) (c : list sample) : mser :=
   mkMS (ms_mm m ++ [c]) (ms_mmMax m)
        (if negb (is_nil (ms_hc m)) && (cmin (ms_hc m) <=? cmax c) then [] else ms_hc m).
-Definition snap_series (mv : Z) (hc : list sample) (cs : list (list sample)) : mser :=
-  fold_left attach (load_chunks mv cs) (mkMS [] 0 hc).
+Definition snap_series_at (mm0 : Z) (mv : Z) (hc : list sample) (cs : list (list sample)) : mser :=
+  fold_left attach (load_chunks mv cs) (mkMS [] mm0 hc).
+Definition snap_series := snap_series_at minInt64.
+Definition snap_series_old := snap_series_at 0.
 
 (* memSeries.append for a replayed sample: rejected unless above the newest chunk *)
 Definition newest_max (m : mser) : Z :=
@@ -141,20 +145,22 @@ Definition replayed (snapIdx snapOff cp : Z) (e : wentry) : bool :=
   else (Z.max (if (0 <=? cp) && (snapIdx <=? cp) then cp + 1 else Z.max cp 0) snapIdx <=? w_seg e)
        && (if w_seg e =? snapIdx then snapOff <? w_off e else true).
 
-Definition snap_head (mv : Z) (d : dstate) (s : snapshot) : head :=
-  mkH (fun l => if sn_has s l then snap_series mv (sn_hc s l) (d_mm d l) else wal_series mv (d_mm d l))
+Definition snap_head (mm0 : Z) (mv : Z) (d : dstate) (s : snapshot) : head :=
+  mkH (fun l => if sn_has s l then snap_series_at mm0 mv (sn_hc s l) (d_mm d l) else wal_series mv (d_mm d l))
       (sn_tomb s)
       (fold_left add_ex (filter (fun e => 0 <=? fst e) (sn_ex s)) []).
 
 Definition wal_head (mv : Z) (d : dstate) : head :=
   mkH (fun l => wal_series mv (d_mm d l)) (fun _ => []) [].
 
-Definition open (enabled : bool) (d : dstate) : head :=
+Definition open_at (mm0 : Z) (enabled : bool) (d : dstate) : head :=
   let mv := d_mv d in
   match usable enabled d with
-  | Some s => fold_left (replay_entry mv) (filter (replayed (sn_idx s) (sn_off s) (d_cp d)) (d_wal d)) (snap_head mv d s)
+  | Some s => fold_left (replay_entry mv) (filter (replayed (sn_idx s) (sn_off s) (d_cp d)) (d_wal d)) (snap_head mm0 mv d s)
   | None => fold_left (replay_entry mv) (filter (replayed (-1) 0 (d_cp d)) (d_wal d)) (wal_head mv d)
   end.
+Definition open := open_at minInt64.
+Definition open_old := open_at 0.   (* the code before the fix *)
 End WithExemplarStorage.
 
 (* ---------------- queries ---------------- *)
